@@ -1,6 +1,6 @@
 """Configuration of ./check for C16 (see tools/props.py)."""
 ENTRY = {'coq_dir': 'C16',
- 'coq_deps': ['C15', 'C14', 'C17'],
+ 'coq_deps': ['C15', 'C14', 'C17', 'Ts'],
  'harness': 'c16',
  'cases': {'quick': 6000, 'thorough': 200000},
  'consts': ['PARALLELISM_FACTOR', 'REPLICATION_FACTOR', 'KAD_READ_TIMEOUT_SECS', 'KAD_WRITE_TIMEOUT_SECS'],
